@@ -99,19 +99,22 @@ Section P.
         else Ok (range_render (f_lb_inc f) (f_ub_inc f) (f_lb_inf f) (f_ub_inf f) lb []))
        = Ok (range_render (f_lb_inc f) (f_ub_inc f) (f_lb_inf f) (f_ub_inf f) lb (if f_ub_inf f then [] else thi))).
     { intros lb offset Ho. destruct (f_ub_inf f) eqn:UI; cbn [negb]; [reflexivity|].
-      cbv zeta. rewrite Hupper in *. 
+      cbv zeta.
+      assert (Eu : upper = ehi) by (rewrite Hupper; rewrite ?UI; reflexivity).
+      assert (Lu : blen upper = size) by (rewrite Eu; exact Lhi).
       assert (AL : (if size >? 1 then go_align (offset + 4) size - 4 else offset) = offset).
       { subst offset. rewrite Hlower. destruct (f_lb_inf f); cbn [negb]; [|rewrite Llo]; destruct SZ as [-> | ->]; reflexivity. }
-      rewrite AL. rewrite L, Lhi. destruct (offset + size >? 4 + blen lower + size + 1 - 1) eqn:E; [lia|].
+      rewrite AL. rewrite L, Lu. destruct (offset + size >? 4 + blen lower + size + 1 - 1) eqn:E; [lia|].
       destruct (slice_sub s offset (offset + size) ehi) as [t' ->]; try lia.
-      { subst offset. unfold s. cbn [vis]. ssub. }
+      { subst offset. unfold s. cbn [vis]. rewrite Eu. ssub. }
       cbn [bind]. destruct (Shi {| vis := ehi; tail := t' |} eq_refl) as (v & -> & Fv). cbn [bind]. rewrite Fv. reflexivity. }
     destruct (f_lb_inf f) eqn:LI; cbn [negb].
-    - rewrite Hlower in *. apply UP. bl. lia.
-    - rewrite Hlower in *. rewrite L, Llo.
-      destruct (4 + size >? 4 + size + blen upper + 1 - 1) eqn:E; [lia|].
+    - apply UP. rewrite Hlower; rewrite ?LI. reflexivity.
+    - assert (El : lower = elo) by (rewrite Hlower; rewrite ?LI; reflexivity).
+      assert (Ll : blen lower = size) by (rewrite El; exact Llo).
+      destruct (4 + size >? len s - 1) eqn:E; [lia|].
       destruct (slice_sub s 4 (4 + size) elo) as [t' ->]; try lia.
-      { unfold s. cbn [vis]. ssub. }
+      { unfold s. cbn [vis]. rewrite El. ssub. }
       cbn [bind]. destruct (Slo {| vis := elo; tail := t' |} eq_refl) as (v & -> & Fv). cbn [bind]. rewrite Fv.
       apply UP. lia.
   Qed.
@@ -121,12 +124,12 @@ Section P.
                blen (enc_relem e) = relem_size e /\ (relem_size e = 4 \/ relem_size e = 8).
   Proof.
     intros F W. destruct e as [v|v|v|v]; cbn [relem_fits wf_relem enc_relem txt_relem relem_size] in *.
-    - assert (oid = 3904) by lia. subst. exists 23. repeat split; auto using elem_int4. bl. reflexivity.
-    - assert (oid = 3926) by lia. subst. exists 20. repeat split; auto using elem_int8. bl. reflexivity.
-    - assert (oid = 3912) by lia. subst. exists 1082. repeat split; auto using elem_date. unfold enc_date. bl. reflexivity.
+    - assert (oid = 3904) by lia. subst. exists 23. repeat split; auto using elem_int4; try (bl; reflexivity).
+    - assert (oid = 3926) by lia. subst. exists 20. repeat split; auto using elem_int8; try (bl; reflexivity).
+    - assert (oid = 3912) by lia. subst. exists 1082. repeat split; auto using elem_date; try (unfold enc_date; bl; reflexivity).
     - assert (O : oid = 3908 \/ oid = 3910) by lia. destruct O; subst.
-      + exists 1114. repeat split; auto using elem_ts. unfold enc_ts. bl. reflexivity.
-      + exists 1184. repeat split; auto using elem_ts. unfold enc_ts. bl. reflexivity.
+      + exists 1114. repeat split; auto using elem_ts; try (unfold enc_ts; bl; reflexivity).
+      + exists 1184. repeat split; auto using elem_ts; try (unfold enc_ts; bl; reflexivity).
   Qed.
 
   Lemma range_ok oid typid f lo hi t :
@@ -140,10 +143,9 @@ Section P.
     assert (D : decodeRange {| vis := enc_range_of typid f lo hi; tail := t |} oid = Ok (txt_range f (txt_relem lo) (txt_relem hi))).
     { unfold enc_range_of. apply (range_generic oid eo); auto. congruence. }
     assert (L : 5 <= blen (enc_range_of typid f lo hi)).
-    { unfold enc_range_of, enc_range. cbv zeta. bl. 
-      pose proof (blen_nonneg (if has_lb f then pad_at 8 (relem_size lo) ++ enc_relem lo else [])).
-      pose proof (blen_nonneg (if has_ub f then pad_at (8 + blen (if has_lb f then pad_at 8 (relem_size lo) ++ enc_relem lo else [])) (relem_size lo) ++ enc_relem hi else [])).
-      lia. }
+    { unfold enc_range_of, enc_range. cbv zeta.
+      match goal with |- 5 <= blen (_ ++ ?A ++ ?B ++ _) => pose proof (blen_nonneg A); pose proof (blen_nonneg B); set (a := A) in *; set (b := B) in * end.
+      bl. lia. }
     assert (K : kind_of_oid oid = KRange /\ lookup oid arrayElemTypes = None /\ lookup oid fixedLengths = None).
     { unfold range_elem in RE.
       destruct (oid =? 3904) eqn:E1; [assert (oid = 3904) by lia; subst; repeat split; reflexivity|].
@@ -164,18 +166,18 @@ Section P.
     Ok (VStr (if f_empty f then bs "empty" else decodeNumericRange (flags_byte f))).
   Proof.
     intros Ht. destruct (flags_bits f) as (B0 & B1 & B2 & B3 & B4 & FR).
-    set (lower := if has_lb f then lo else []). set (upper := if has_ub f then hi else []).
-    pose proof (blen_nonneg lower). pose proof (blen_nonneg upper).
-    assert (L : blen (enc_numrange typid f lo hi) = 4 + blen lower + blen upper + 1).
-    { unfold enc_numrange. fold lower. fold upper. bl. lia. }
-    unfold DecodeType. rewrite DecodeType_gen_scalar with (k := KRange); try reflexivity.
-    2:{ unfold len. cbn [vis]. lia. } 2:{ exact I. }
-    cbn [decodeKind]. unfold decodeRange. unfold len. cbn [vis]. rewrite L.
-    destruct (4 + blen lower + blen upper + 1 <? 5) eqn:E5; [lia|].
-    rewrite (read_idx _ (4 + blen lower + blen upper + 1 - 1) (z2b (flags_byte f))); [|lia|].
-    2:{ cbn [vis]. unfold enc_numrange. fold lower. fold upper. ssub. }
-    cbn [bind]. rewrite b2z_z2b, Z.mod_small by lia. rewrite B0.
-    destruct (f_empty f); reflexivity.
+    unfold enc_numrange. pose proof (blen_nonneg lo). pose proof (blen_nonneg hi).
+    destruct (has_lb f); destruct (has_ub f);
+    (unfold DecodeType; rewrite DecodeType_gen_scalar with (k := KRange);
+      [ | unfold len; cbn [vis]; bl; lia | reflexivity | reflexivity | exact I ];
+     cbn [decodeKind]; unfold decodeRange;
+     match goal with |- context [len ?s] => set (s0 := s);
+       assert (L : exists n, 0 <= n /\ len s0 = 5 + n) by (exists (len s0 - 5); split; [unfold s0, len; cbn [vis]; bl; lia|lia]) end;
+     destruct L as (n & Hn & L); rewrite !L;
+     destruct (5 + n <? 5) eqn:E5; [lia|];
+     rewrite (read_idx s0 (5 + n - 1) (z2b (flags_byte f))); [|lia|unfold s0, len in *; cbn [vis] in *; bl; ssub];
+     cbn [bind]; rewrite b2z_z2b, Z.mod_small by lia; rewrite B0;
+     destruct (f_empty f); reflexivity).
   Qed.
   Section NumDisp.
     Variable num_disp : bytes -> bytes.
@@ -195,8 +197,10 @@ Section P.
              [x0b; x00; x80; x01; x00], [].
       split; [unfold in_u; lia|]. split; [reflexivity|]. intros ND.
       rewrite numrange_model by (unfold in_u; lia). unfold exp_numrange, txt_range. cbn.
-      intros E. injection E as E. apply ND. 
-      destruct (num_disp _) as [|c [|c2 r]]; cbn in E; try discriminate; injection E as ->; reflexivity.
+      intros E. injection E as E. apply ND.
+      change (x3f :: [x2c; x29] = num_disp [x0b; x00; x80; x01; x00] ++ [x2c; x29]) in E.
+      change (x3f :: [x2c; x29]) with ([x3f] ++ [x2c; x29]) in E.
+      apply app_inv_tail in E. symmetry. exact E.
     Qed.
   End NumDisp.
 End P.
